@@ -8,7 +8,7 @@ drivers, so every generated scenario is a valid program.
 import random
 
 SIGS = [-2, -5, -4, -7, 3, 11]          # interrupt / timer / resume signals (never 0 = SUCCESS)
-PROFILES = ["resource", "pool", "buffer", "oq", "pq", "cond", "lifecycle", "timers", "mixed", "crowd", "record", "poolprio"]
+PROFILES = ["resource", "pool", "buffer", "oq", "pq", "cond", "lifecycle", "timers", "mixed", "crowd", "record", "poolprio", "condcrowd", "condfwd", "evgrow", "prioq", "record2"]
 
 
 def gen_scenario(rng, profile=None, size=None, exclude=frozenset()):
@@ -59,7 +59,8 @@ def gen_scenario(rng, profile=None, size=None, exclude=frozenset()):
             ch += ["pacq %d %d" % (p, rng.randint(1, cap))] * 3 + ["ppre %d %d" % (p, rng.randint(1, cap))]
         if bufs:
             b = rng.randrange(len(bufs))
-            ch += ["bget %d %d" % (b, rng.choice([0, 1, 2, 3, 7, 15]))] * 2 + ["bput %d %d" % (b, rng.choice([1, 2, 3, 7, 15]))] * 2
+            big = [18446744073709551613, 18446744073709551615, 18446744073709551610] if profile == "buffer" and rng.random() < 0.25 else []
+            ch += ["bget %d %d" % (b, rng.choice([0, 1, 2, 3, 7, 15] + big))] * 2 + ["bput %d %d" % (b, rng.choice([1, 2, 3, 7, 15] + big))] * 2
         if oqs:
             ch += ["oget 0"] * 2 + ["oput 0 %d" % rng.choice([0, 1, 2, 2, 9])] * 2
         if pqs:
@@ -119,6 +120,122 @@ def gen_scenario(rng, profile=None, size=None, exclude=frozenset()):
             ch += ["rstart %d %d" % (k, rng.randrange(n))] * 2 + ["rstop %d %d" % (k, rng.randrange(n))]
         return rng.choice(ch)
 
+    if profile == "condcrowd":
+        # many waiters with flag predicates on one condition (no observers), a signaller that raises flags and signals
+        nw = rng.randint(6, 12)
+        out = ["cond"]
+        for p in range(nw):
+            cmds = ["cwait 0 0 %d 0" % rng.randrange(4)]
+            if rng.random() < 0.3:
+                cmds = ["tadd 0 %d -5" % rng.randint(1, 6)] + cmds
+            if rng.random() < 0.4:
+                cmds.append("cwait 0 0 %d 0" % rng.randrange(4))
+            out.append("proc %d 1 %d" % (rng.randint(0, 12), len(cmds)))
+            out += cmds
+        sig = []
+        for _ in range(rng.randint(3, 7)):
+            sig.append("hold %d" % rng.randint(1, 3))
+            for _ in range(rng.randint(1, 2)):
+                sig.append("flag %d %d" % (rng.randrange(4), rng.choice([0, 1, 1])))
+            sig.append("csig 0")
+            if rng.random() < 0.2:
+                sig.append("ccancel 0 %d" % rng.randrange(nw))
+        sig += ["flag 0 1", "flag 1 1", "flag 2 1", "flag 3 1", "hold 1", "csig 0"]
+        out.append("proc %d 1 %d" % (rng.randint(0, 12), len(sig)))
+        out += sig
+        return out, {"profile": profile, "procs": nw + 1, "lines": len(out)}
+    if profile == "prioq":
+        # a long holder, several waiters arriving at distinct times with few distinct priorities, priority changes of
+        # waiting processes (ties with others on purpose), then the resource passes down the queue: service order is visible
+        nw = rng.randint(3, 9)
+        use_pool = rng.random() < 0.3
+        out = ["pool 1"] if use_pool else ["res"]
+        acq, rel = ("pacq 0 1", "prel 0 1") if use_pool else ("acq 0", "rel 0")
+        out += ["proc 9 1 3", acq, "hold %d" % (nw + 6), rel]
+        for w in range(nw):
+            out += ["proc %d 1 4" % rng.randint(0, 2), "hold %d" % (w + 1 if rng.random() < 0.8 else rng.randint(1, nw)), acq, "hold 1", rel]
+        ch = []
+        tnow = 0
+        for _ in range(rng.randint(1, 5)):
+            d = rng.randint(1, 3)
+            ch.append("hold %d" % d)
+            ch.append("prio %d %d" % (rng.randint(1, nw), rng.randint(0, 2)))
+        out += ["proc 5 1 %d" % len(ch)] + ch
+        return out, {"profile": profile, "procs": nw + 2, "lines": len(out)}
+    if profile == "record2":
+        # recording toggled on/off/on by one process at times 0, 10, 20, ...; the others change the state of the recorded
+        # objects with calls that do not block, each at its own instants, so that the true trajectory is determined
+        out = ["res", "pool 50", "buf U", "oq U", "pq U"]
+        tog = []
+        objs_ = [(0, 0), (1, 0), (2, 0), (3, 0), (4, 0)]
+        for rnd in range(rng.randint(2, 4)):
+            for (k, i) in objs_:
+                if rng.random() < 0.8:
+                    tog.append("%s %d %d" % ("rstart" if rnd % 2 == 0 else "rstop", k, i))
+            tog.append("hold 10")
+        out += ["proc 9 1 %d" % len(tog)] + tog
+        for j in range(rng.randint(1, 4)):
+            cmds = ["hold %d" % (j + 1)]
+            held = 0
+            for _ in range(rng.randint(2, 6)):
+                r = rng.random()
+                if r < 0.25:
+                    cmds.append("bput 0 %d" % rng.randint(1, 4))
+                elif r < 0.4:
+                    cmds += ["bput 0 2", "bget 0 1"]
+                elif r < 0.6:
+                    cmds.append("oput 0 %d" % rng.randint(1, 9))
+                elif r < 0.7:
+                    cmds += ["oput 0 3", "oget 0"]
+                elif r < 0.85:
+                    cmds += ["pacq 1 %d" % rng.randint(1, 3)]
+                    held = 1
+                else:
+                    cmds += ["kput 0 %d %d %d" % (rng.randint(1, 9), rng.randint(0, 3), 4 + j)]
+                cmds.append("hold 10")
+            if j == 0:
+                cmds += ["acq 0", "hold 10", "rel 0"]
+            if held and rng.random() < 0.5:
+                cmds.append("prel 1 1")
+            out += ["proc %d 1 %d" % (rng.randint(0, 3), len(cmds))] + cmds
+        return out, {"profile": profile, "procs": 2, "lines": len(out)}
+    if profile == "evgrow":
+        # many processes wait for one user event; a filler arms k timers so that the event queue is at a growth threshold
+        # when the event is executed or cancelled and its waiters are woken
+        nw = rng.randint(2, 12)
+        k = rng.randint(0, 40)
+        how = rng.choice(["exec", "cancel", "cancel"])
+        filler = ["usched 9 2 %d" % rng.randint(0, 3), "hold 1"] + ["tadd 0 50 -5"] * k
+        filler += (["hold 5"] if how == "exec" else ["ucancel 9", "hold 1"]) + ["hold 5"]
+        out = ["res", "proc %d 1 %d" % (rng.randint(0, 3), len(filler))] + filler
+        for _ in range(nw):
+            out += ["proc %d 1 2" % rng.randint(0, 3), "waite 9", "hold 1"]
+        return out, {"profile": profile, "procs": nw + 1, "lines": len(out)}
+    if profile == "condfwd":
+        # a condition observing a resource / buffer / queue guard; state changes reach its waiters only through forwarded signals
+        out = ["res", "buf 5", "oq 3", "cond"]
+        kind, idx, which = rng.choice([(0, 0, 0), (0, 0, 0), (2, 0, 0), (2, 0, 1), (3, 0, 0), (3, 0, 1)])
+        out.append("sub 0 %d %d %d" % (kind, idx, which))
+        nproc = rng.randint(2, 5)
+        procs = []
+        # one condition waiter with a flag predicate (so that the front-only evaluation cannot matter), maybe a second one
+        procs.append((rng.randint(0, 5), ["hold %d" % rng.randint(0, 1), "cwait 0 0 %d 0" % rng.randrange(2), "hold 1"]))
+        if rng.random() < 0.3:
+            procs.append((rng.randint(0, 5), ["hold 1", "cwait 0 %d 0 %d" % rng.choice([(1, 0), (3, 1), (4, 1)]), "hold 1"]))
+        # the actor: changes state so that the observed guard is signalled, after raising the flag
+        actor = ["acq 0", "hold %d" % rng.randint(1, 3), "flag %d 1" % rng.randrange(2), "flag %d 1" % rng.randrange(2)]
+        actor += [rng.choice(["rel 0", "bput 0 2", "oput 0 7", "bget 0 1", "oget 0"])]
+        actor += ["hold 2", "rel 0", "bput 0 1", "oput 0 1"]
+        procs.append((rng.randint(0, 5), actor))
+        # direct waiters on the observed object, so that the guard's own front waiter is served by the same signal
+        for _ in range(nproc - 1):
+            procs.append((rng.randint(0, 5), ["hold %d" % rng.randint(0, 2), rng.choice(["acq 0", "bget 0 1", "oget 0", "bput 0 9", "acq 0"]),
+                                              "hold 1", "rel 0"]))
+        rng.shuffle(procs)
+        for pr, cmds in procs:
+            out.append("proc %d 1 %d" % (pr, len(cmds)))
+            out += cmds
+        return out, {"profile": profile, "procs": len(procs), "lines": len(out)}
     if profile == "poolprio":
         # preempting pool acquisitions that have to wait, while priorities of waiters and holders change under them
         cap = rng.choice([4, 6, 10])
